@@ -113,6 +113,7 @@ class ClientDriver(ReorgDriver):
         w.net.on_server_write = self.on_server_write
         self.mp_prev_view = None
         self.mp_list_version = None
+        self.mp_list_at = 0
         self.mp_list_index_ok = False
         self.last_sync_refresh = None       # daemon.version of the last synchronised refresh seen
         self.cl = []
@@ -124,6 +125,7 @@ class ClientDriver(ReorgDriver):
         def rpc(method, params):
             if method == 'getrawmempool':
                 self.mp_list_version = d.version
+                self.mp_list_at = w.sim.steps
                 srv = w.server
                 # "the index was at that height": flushed, nothing of a flush still in flight
                 self.mp_list_index_ok = bool(
@@ -210,7 +212,7 @@ class ClientDriver(ReorgDriver):
             self.probe('refresh.unsynchronised')
             return
         self.probe('refresh.synchronised')
-        self.last_sync_refresh = d.version
+        self.last_sync_refresh = (d.version, self.mp_list_at)
         ref = RefMempool(d, w.k['activation'])
         if ref.txs:
             self.probe('refresh.synchronised.nonempty')
@@ -351,6 +353,18 @@ class ClientDriver(ReorgDriver):
                 c.send('blockchain.scripthash.subscribe', [SH_ALL[op['s'] % len(SH_ALL)]])
         self._when(op, go)
 
+    def op_c_sub_tx(self, op):
+        """Subscribe to the script of an output of the mempool transaction added last."""
+        def go():
+            tx = getattr(self, 'last_mp_tx', None)
+            c = self.client(op['c'])
+            if tx is None or not self.ensure_connected(c):
+                return
+            v, scr = tx.outs[op.get('o', 0) % len(tx.outs)]
+            c.send('blockchain.scripthash.subscribe', [scripthash_hex(scr)])
+            self.probe('c07.sub_to_mempool_output')
+        self._when(op, go)
+
     def op_c_unsub(self, op):
         def go():
             c = self.client(op['c'])
@@ -400,13 +414,17 @@ class ClientDriver(ReorgDriver):
                 avail = w.daemon.mempool_avail()
                 if not avail:
                     return
-                if op.get('chain') and w.daemon.mempool and rng.random() < op['chain']:
+                if op.get('recent'):
+                    # spend outputs created by the tip block: a reorg un-confirms the parent
+                    sub = {k: v for k, v in avail.items() if v[2] == w.daemon.height} or avail
+                elif op.get('chain') and w.daemon.mempool and rng.random() < op['chain']:
                     sub = {k: v for k, v in avail.items() if v[2] == -1} or avail
                 else:
                     sub = avail
                 tx = w.gen.make_tx(rng, dict(sub))
                 if w.daemon.add_mempool_tx(tx):
                     self.probe('mp.added')
+                    self.last_mp_tx = tx
         self._when(op, go)
 
     def op_mp_evict(self, op):
@@ -467,14 +485,20 @@ class ClientDriver(ReorgDriver):
             if not self.quiesce(limit):
                 return False
             d.frozen = True
-            r = w.run(lambda: self.last_sync_refresh == d.version and w.caught_up(), 400.0)
+            # a synchronised refresh whose listing was taken after the index had caught up
+            t0 = w.sim.steps
+
+            def refreshed():
+                ls = self.last_sync_refresh
+                return ls is not None and ls[0] == d.version and ls[1] >= t0
+            r = w.run(lambda: refreshed() and w.caught_up(), 600.0)
             if r != 'pred':
                 return False
             # let deferred notifications and network deliveries drain: two more refresh periods
             w.run(None, 16.0)
             if w.server is None:
                 continue
-            if self.last_sync_refresh == d.version and w.caught_up() and self.pending_bg <= 0 and \
+            if refreshed() and w.caught_up() and self.pending_bg <= 0 and \
                     not any(c.connected and c.pending() for c in self.cl):
                 return True
         return False
@@ -803,6 +827,20 @@ class SubsFamily(ReorgFamily):
                 plan.append(dict(op='c_sub', c=c, s=self.pick_s(rng, k)))
         for _ in range(rng.randint(1, 3)):
             at_max = rng.choice([2.0, 8.0, 20.0])
+            if rng.random() < 0.25:
+                # motif: an unconfirmed child of a transaction of the tip block, a subscriber of the
+                # child's output script, then the tip block is orphaned (parent back in the mempool)
+                k['orphans_return'] = True
+                plan.append(dict(op='mine', n=1, ntx=[rng.randint(2, 6)], seed=rng.getrandbits(32)))
+                plan.append(dict(op='settle'))
+                plan.append(dict(op='mp_add', n=1, recent=True, seed=rng.getrandbits(32)))
+                plan.append(dict(op='c_sub_tx', c=rng.randrange(nclients), o=rng.randrange(4)))
+                if rng.random() < 0.5:
+                    plan.append(dict(op='settle'))
+                plan.append(dict(op='fork', depth=1, extra=1, ntx=[rng.randint(0, 3), 2], remine=0.0,
+                                 at=round(rng.uniform(0, 3), 3), seed=rng.getrandbits(32)))
+                plan.append(dict(op='settle'))
+                continue
             ops = self.chain_ops(rng, k, at_max) + self.client_ops(rng, nclients, at_max, k)
             rng.shuffle(ops)
             plan.extend(ops)
